@@ -39,6 +39,10 @@ def log(*a):
     print(*a, file=sys.stderr, flush=True)
 
 
+QUICK_START_S = 420
+QUICK_CELL_S = 400
+
+
 def _worker(args, wall_timeout):
     env = dict(os.environ)
     env['SYMX_REPO'] = REPO
@@ -66,8 +70,10 @@ def _worker(args, wall_timeout):
     return results, err[-3000:], rc, time.time() - t0
 
 
-def analyze_cell(module, cell, spec, scale):
+def analyze_cell(module, cell, spec, scale, cap=None):
     ct = float(spec.get('timeout', 300)) * scale
+    if cap is not None:
+        ct = min(ct, cap)
     pt = float(spec.get('path_timeout', 60))
     results, err, rc, wall = _worker(['analyze', module, str(ct), str(pt), cell], ct * 3 + 120)
     if results:
@@ -140,6 +146,12 @@ def main(argv=None):
     from checks import registry
     pinfo = registry.PROPERTIES[prop]
     budget = a.budget if a.budget is not None else pinfo.get('budget', {}).get(tier, 900 if tier == 'quick' else 3600)
+    # the quick tier is the check run on every change: it must end well inside 15 minutes whatever the machine load, so no cell
+    # is started after QUICK_START_S and no cell runs longer than QUICK_CELL_S of CPU (cells cut off are reported inconclusive / not run)
+    cell_cap = None
+    if tier == 'quick' and a.budget is None:
+        budget = min(budget, QUICK_START_S)
+        cell_cap = QUICK_CELL_S
 
     cells = []
     encodes, stubs, bounds_notes, files = [], [], [], []
@@ -177,7 +189,7 @@ def main(argv=None):
         modname, name, spec = c
         if time.time() > deadline:
             return (c, None)
-        return (c, analyze_cell(modname, name, spec, a.scale))
+        return (c, analyze_cell(modname, name, spec, a.scale, cell_cap))
 
     with concurrent.futures.ThreadPoolExecutor(max_workers=a.jobs) as ex:
         for c, r in ex.map(job, cells):
